@@ -422,6 +422,42 @@ def requester_nested(event, where):
             raise Violation('%s:nested:not-ended' % PROP, 'provider of association %d not stopped' % (i + 1), case)
 
 
+def provider_abort_in_flight(role, source, reason, nfrag):
+    """The application sends a message of `nfrag` data fragments and aborts with (source, reason) right away - both
+    primitives are with the provider before it has written the first fragment (what `asce.send(msg); asce.abort(reason)`
+    amounts to).  The real provider loop runs on the simulated transport: whatever it does with the message, the A-ABORT
+    it writes carries exactly the source and reason the application gave, and it is the last PDU written."""
+    from pynetdicom2 import pdu
+    from .. import simnet, convs, refpdu
+    case = {'kind': 'provider-abort-in-flight', 'role': role, 'source': source, 'reason': reason, 'nfrag': nfrag}
+    if role == 'acceptor':
+        prefix = [{'k': 'seg', 'data': refpdu.enc_pdu(convs.RQ_SPEC), 'eager': False}, {'k': 'user', 'prim': convs.user_prim({'pdu': convs.AC_SPEC})}]
+    else:
+        prefix = [{'k': 'user', 'prim': convs.user_prim({'pdu': convs.RQ_SPEC})}, {'k': 'seg', 'data': refpdu.enc_pdu(convs.AC_SPEC), 'eager': False}]
+
+    def both(sim):
+        msg = convs.user_prim({'msg': convs.store_rq_pdus(nfrag, pc_id=3)})
+        sim.provider.send(x for x in msg)
+        return pdu.AAbortPDU(source=source, reason_diag=reason)
+    actions = prefix + [{'k': 'user', 'fn': both}, {'k': 'close', 'eager': False}, {'k': 'tick', 'dt': 11.5}]
+    sim = simnet.Sim(role, actions)
+    sim.run()
+    if sim.outcome[0] != 'returned':
+        raise Violation('%s:abort-in-flight:%s' % (PROP, sim.outcome[0]), '%s: provider loop: %r' % (role, sim.outcome), case)
+    try:
+        pdus = refpdu.parse_stream(sim.wire())
+    except refpdu.RefError as exc:
+        raise Violation('%s:abort-in-flight:wire' % PROP, 'bytes written do not parse: %s' % exc, case)
+    aborts = [p for p in pdus if p['t'] == 7]
+    if len(aborts) != 1 or pdus[-1]['t'] != 7:
+        raise Violation('%s:abort-in-flight:count' % PROP, '%s: message of %d fragments and an abort request handed over together: PDUs written %r, '
+                        'expected exactly one A-ABORT, last' % (role, nfrag + 1, [p['t'] for p in pdus]), case)
+    got = (aborts[0]['source'], aborts[0]['reason'])
+    if got != (source, reason):
+        raise Violation('%s:abort-in-flight:fields' % PROP, '%s: the application aborted with (source, reason) = %r while a message of %d fragments '
+                        'was with the provider; the A-ABORT on the wire carries %r' % (role, (source, reason), nfrag + 1, got), case)
+
+
 # ---- acceptor: peer aborts / releases ------------------------------------------------------------------
 def acceptor_peer_event(event, after):
     """The requesting peer sends `after` echo requests and then an A-ABORT(s, r) or an A-RELEASE-RQ."""
@@ -783,6 +819,12 @@ def run(ctx):
             ctx.case(('nested', event, where), True, labels=['exit=error-of-a-nested-association', 'nested-' + event[0]],
                      sample={'nested association': event, 'where': where})
             ctx.check(requester_nested, event, where)
+    for role in ('acceptor', 'requestor'):
+        for sr in ((2, 3), (0, 5), (0, 0), (2, 6), (1, 255), (2, 0)):
+            for nfrag in (1, 2, 5, 12):
+                ctx.case(('abort-in-flight', role, sr, nfrag), sr != (0, 0), labels=['abort requested while a message is with the provider (real provider loop)'],
+                         sample={'role': role, 'abort (source, reason)': sr, 'data fragments': nfrag})
+                ctx.check(provider_abort_in_flight, role, sr[0], sr[1], nfrag)
     for where in ('first', 'between'):
         ctx.case(('release-ignored', where), True, labels=['release-never-confirmed'], sample={'where': where})
         ctx.check(requester_release_ignored, where)
@@ -830,6 +872,8 @@ def replay(case):
         requester_peer_event(case['position'], case['exchange'], tuple(case['event']))
     elif k == 'release-ignored':
         requester_release_ignored(case['where'])
+    elif k == 'provider-abort-in-flight':
+        provider_abort_in_flight(case['role'], case['source'], case['reason'], case['nfrag'])
     elif k == 'requester-nested':
         requester_nested(tuple(case['event']), case['where'])
     elif k == 'requester-exit':
